@@ -1,8 +1,9 @@
 (* C08 - value completion offers only what fits: visible declarations, conforming values.
    Model: Model/Ref.v (Targets.MatchWalk, localTargetMatches, absTargetMatches, containsMatch,
-   Target.Address), compared with the exported functions on every run. *)
+   Target.Address), compared with the exported functions on every run;
+   Model/FuncCands.v (functionExpr.matchingFunctions), compared with CompletionAtPos on every run. *)
 From Coq Require Import String List ZArith Bool.
-From HV Require Import Base.Pos Model.Addr Model.Schema Model.Ref Proofs.RefProofs.
+From HV Require Import Base.Pos Model.Addr Model.Schema Model.Ref Proofs.RefProofs Model.FuncCands Proofs.FuncCandsProofs.
 
 (* every declaration the completion walk offers is offered through its local or absolute address *)
 Theorem C08_offered_targets_match : forall conv self_active ref_scope ref_type prefix outer_body origin_rng fuel ts t,
@@ -30,3 +31,26 @@ Theorem C08_absolute_candidates_fit : forall conv ref_scope ref_type prefix oute
   (matches_constraint conv t ref_scope ref_type = true \/ cm = true).
 Proof. exact abs_match_implies. Qed.
 Print Assumptions C08_absolute_candidates_fit.
+
+(* every function candidate is a known function whose name starts with the typed text and whose
+   return type converts to the expected type; accepting it writes a call of that function *)
+Theorem C08_function_candidates_fit : forall conv funcs prefix expected c,
+  In c (matching_functions conv funcs prefix expected) ->
+  exists f, In f funcs /\ fc_label c = fd_name f /\ fc_newtext c = (fd_name f ++ "()")%string /\
+            String.prefix prefix (fd_name f) = true /\ conv (fd_ret f) expected = true.
+Proof. exact function_candidates_sound. Qed.
+Print Assumptions C08_function_candidates_fit.
+
+(* ... every such function is offered ... *)
+Theorem C08_function_candidates_complete : forall conv funcs prefix expected f,
+  In f funcs -> String.prefix prefix (fd_name f) = true -> conv (fd_ret f) expected = true ->
+  In (cand_of f) (matching_functions conv funcs prefix expected).
+Proof. exact function_candidates_complete. Qed.
+Print Assumptions C08_function_candidates_complete.
+
+(* ... and the list does not depend on the order in which the function table (a map) is visited *)
+Theorem C08_function_candidates_order_independent : forall conv funcs funcs' prefix expected,
+  NoDup (map fd_name funcs) -> Permutation.Permutation funcs funcs' ->
+  matching_functions conv funcs prefix expected = matching_functions conv funcs' prefix expected.
+Proof. exact function_candidates_order_independent. Qed.
+Print Assumptions C08_function_candidates_order_independent.
